@@ -91,10 +91,12 @@ func (w *Writer) Rotate(fs storage.FileSystem) *Writer {
 	nextLog.latestSeqNum = w.latestSeqNum
 
 	// Include all data from previous buffers
+	// Each carried segment keeps the latest sequence number it contains so that
+	// Truncate only drops it once its entries are in the sstables.
 	for i, b := range w.sealedBuffers {
-		nextLog.sealedBuffers[i] = &bufferSegment{buf: b.buf}
+		nextLog.sealedBuffers[i] = &bufferSegment{buf: b.buf, latestSeqNum: b.latestSeqNum}
 	}
-	nextLog.sealedBuffers[len(w.sealedBuffers)] = &bufferSegment{buf: w.activeBuffer.buf}
+	nextLog.sealedBuffers[len(w.sealedBuffers)] = &bufferSegment{buf: w.activeBuffer.buf, latestSeqNum: w.latestSeqNum}
 
 	// And initialize a new active buffer
 	nextLog.activeBuffer = &bufferSegment{}
